@@ -75,11 +75,17 @@ package transport
 //gvc:  sink Open requires jailed: recv == fs && strid(arg0) == strid(".git")
 //gvc:end
 
+// Load hands out a storage only from a load made in this very call: the
+// containment comes from the Chroot walk of that load, so a verdict remembered
+// from an earlier call (the directory may have been swapped for a symbolic link
+// since) is not one.
 //gvc:func (*FilesystemLoader).Load
 //gvc:  props C40
 //gvc:  theory int
 //gvc:  opt coarse
 //gvc:  opt frame args
 //gvc:  requires nn: l != nil && u != nil
+//gvc:  results st err
 //gvc:  sink load requires same: recv == l
+//gvc:  ensures fresh: err == nil ==> calls("load") == 1
 //gvc:end
